@@ -117,6 +117,52 @@ func checkC20(r *Result) {
 			}
 			r.check(okAll, "LOCK-PAIRED", FuncName(fn)+" # released on every exit", P.Pos(fn.Pos()), "every return is reached with a deferred Unlock registered or after an explicit Unlock")
 		}
+		// one critical section per batch: an exported method that walks a batch (a loop) holds the lock from before
+		// the loop to after it, so a concurrent reader / writer sees the whole batch or nothing of it
+		if fn.Object() != nil && fn.Object().Exported() && len(loopHeaders(fn)) > 0 {
+			// a loop that does not touch the cache (directly or through another method of it) may run unlocked
+			okAll, where, nTouching := true, "", 0
+			for _, h := range loopHeaders(fn) {
+				var body []*ssa.BasicBlock
+				for _, b := range fn.Blocks {
+					if len(b.Instrs) > 0 && h.Dominates(b) && innermostLoopHeaderWithin(fn, b, h) {
+						body = append(body, b)
+					}
+				}
+				touches := false
+				for _, b := range body {
+					for _, in := range b.Instrs {
+						switch x := in.(type) {
+						case *ssa.FieldAddr:
+							if fieldName(x.X.Type(), x.Field) == guarded {
+								touches = true
+							}
+						case *ssa.Call:
+							if cal := x.Common().StaticCallee(); cal != nil && cal.Signature.Recv() != nil {
+								rt := typeShort(cal.Signature.Recv().Type())
+								if rt == "*"+etpT || rt == "*"+mteT || rt == "*daemons/pricefeed/types.PriceTimestamp" {
+									touches = true
+								}
+							}
+						}
+					}
+				}
+				if !touches {
+					continue
+				}
+				nTouching++
+				for _, b := range body {
+					for _, at := range []ssa.Instruction{b.Instrs[0], b.Instrs[len(b.Instrs)-1]} {
+						if bad := ps.Require(at, func(v map[string]bool) bool { return v["locked"] }); len(bad) > 0 {
+							okAll, where = false, fmt.Sprintf("block %d of the loop", b.Index)
+						}
+					}
+				}
+			}
+			if nTouching > 0 {
+				r.check(okAll, "LOCK-HELD", FuncName(fn)+" # the whole batch loop runs inside one critical section", P.Pos(fn.Pos()), "lock not held in "+where)
+			}
+		}
 		// non-escape: result types must not be pointers / maps into the cache
 		res := fn.Signature.Results()
 		for i := 0; i < res.Len(); i++ {
@@ -352,4 +398,29 @@ func checkC20(r *Result) {
 	r.minCount("LOCK-PAIRED", 2)
 	r.minCount("FRESHNESS", 6)
 	r.minCount("MEDIAN-SHAPE", 3)
+}
+
+// innermostLoopHeaderWithin: block b belongs to the loop headed by h (b can reach h again without leaving
+// the region h dominates).
+func innermostLoopHeaderWithin(fn *ssa.Function, b, h *ssa.BasicBlock) bool {
+	if b == h {
+		return true
+	}
+	seen := map[*ssa.BasicBlock]bool{}
+	work := append([]*ssa.BasicBlock{}, b.Succs...)
+	for len(work) > 0 {
+		x := work[len(work)-1]
+		work = work[:len(work)-1]
+		if seen[x] {
+			continue
+		}
+		seen[x] = true
+		if x == h {
+			return true
+		}
+		if h.Dominates(x) {
+			work = append(work, x.Succs...)
+		}
+	}
+	return false
 }
